@@ -12,6 +12,7 @@ import (
 	"strings"
 
 	"github.com/crillab/gophersat/solver"
+	"verifharness/gen"
 	"verifharness/oracle"
 )
 
@@ -132,3 +133,63 @@ func ReadLines(s string) []string {
 	}
 	return out
 }
+
+// PBConstrsOf turns user-level constraints into solver.PBConstr values through the public
+// constructors, always handing them copies (the constructors mutate their arguments).
+func PBConstrsOf(ps []gen.PC) []solver.PBConstr {
+	var out []solver.PBConstr
+	for _, p := range ps {
+		lits := append([]int{}, p.Lits...)
+		var w []int
+		if p.Coefs != nil {
+			w = append([]int{}, p.Coefs...)
+		}
+		switch p.Kind {
+		case "gteq":
+			out = append(out, solver.GtEq(lits, w, p.K))
+		case "lteq":
+			out = append(out, solver.LtEq(lits, w, p.K))
+		case "eq":
+			out = append(out, solver.Eq(lits, w, p.K)...)
+		case "atleast":
+			out = append(out, solver.AtLeast(lits, p.K))
+		case "atmost":
+			out = append(out, solver.AtMost(lits, p.K))
+		case "clause":
+			out = append(out, solver.PropClause(lits...))
+		case "atmost1": // no PB helper: at most one == at most 1
+			out = append(out, solver.AtMost(lits, 1))
+		case "exactly1":
+			ones := make([]int, len(lits))
+			for i := range ones {
+				ones[i] = 1
+			}
+			out = append(out, solver.Eq(lits, ones, 1)...)
+		default:
+			panic("gs: bad kind " + p.Kind)
+		}
+	}
+	return out
+}
+
+// CardConstrsOf builds solver.CardConstr values (cardinality front-end).
+func CardConstrsOf(ps []gen.PC) []solver.CardConstr {
+	var out []solver.CardConstr
+	for _, p := range ps {
+		lits := append([]int{}, p.Lits...)
+		switch p.Kind {
+		case "atleast":
+			out = append(out, solver.CardConstr{Lits: lits, AtLeast: p.K})
+		case "clause":
+			out = append(out, solver.AtLeast1(lits...))
+		case "atmost1":
+			out = append(out, solver.AtMost1(lits...))
+		case "exactly1":
+			out = append(out, solver.Exactly1(lits...)...)
+		default:
+			panic("gs: kind not available in the cardinality front-end: " + p.Kind)
+		}
+	}
+	return out
+}
+
